@@ -51,6 +51,11 @@ def run(chk, failed):
         ln, tg = G.gen_case(chk.rng, 10 * (i + 2), i)
         cases.append(ln)
         tags.append(tg)
+    nwarm = 10 if not chk.thorough else 120          # each costs 1.3 - 2.6 s of real time (the cache runs on the real clock)
+    for i in range(nwarm):
+        ln, tg = G.gen_warm_case(chk.rng, 10 * (n + i + 2), i)
+        cases.append(ln)
+        tags.append(tg)
     chk.rule = ("ingest histories over 1-2 clusters x 1-3 groups x 1-3 topics x 1-6 partitions (partitions never given a broker "
                 "offset, partitions without commits, owner-only partitions, growing partition counts, offsets beyond 2^53), sent "
                 "through App.StorageChannel of the real storage+evaluator+httpserver coordinators, with deletions through every "
@@ -61,7 +66,14 @@ def run(chk, failed):
     mism_idx = {i for i, _, _, _ in mism}
     reported = 0
     oracle_bad = set()
+    # a warm read that the machine was too slow for (probe marker TIMING) says nothing: not judged, not compared
+    timing = {i for i, a in enumerate(impl) if a.endswith(" TIMING")}
+    if timing:
+        chk.count("warm-cache:timing-discarded", len(timing))
+        mism = [m for m in mism if m[0] not in timing]
     for i, (c, tg, a) in enumerate(zip(cases, tags, impl)):
+        if i in timing:
+            continue
         for t in tg:
             chk.count("shape:" + t)
         d = G.parse_case(c)
@@ -72,7 +84,7 @@ def run(chk, failed):
             chk.count("op:" + op)
             if op in ("DT", "DG", "GG"):
                 seen_del = True
-            if op in ("R", "RJ") and ri < len(reads):
+            if op in G.READS and ri < len(reads):
                 m = reads[ri].split(" ; ")[0].split()
                 ri += 1
                 if len(m) > 1 and m[1] != "PANIC":
@@ -136,7 +148,7 @@ def run(chk, failed):
         chk.sample({"case": cases[i][:400], "impl": impl[i][:500], "model": model[i][:500]})
     chk.assumptions += [
         "reads are quiescent: no ingest runs concurrently with a read phase (storage workers = 1, every fetch is a barrier); concurrency is C08's subject",
-        "the evaluator's result cache (goswarm, real clock) is emptied before every read phase by restarting the evaluator coordinator; cache age is C05's subject",
+        "the evaluator's result cache (goswarm, real clock) is part of the model (Metrics.cstatus, sequential behaviour): cold read phases restart the evaluator, warm ones (RW/RJW, expire-cache = 1 s, real sleeps) read through it; the concurrent behaviour of the cache is C05's subject",
         "the tombstone / reaper / topic-deletion call sites are replayed by the probe as the pair (storage request, httpserver.Delete*Metrics) they consist of",
         "gauge values are float64: model integers are compared after the same conversion (exact below 2^53)",
         "group allow/deny lists are not configured (C10's subject)",
